@@ -597,8 +597,8 @@ class C15(Base):
         slots = []
         pivot_n = rng.randint(2, min(nmax, 24))
         pivot_s = rng.randint(1, pivot_n)
-        pivot_r = rng.randint(1, 3)
-        pivot_d = rng.randint(1, 3)
+        pivot_r = rng.randint(1, 4)
+        pivot_d = rng.randint(1, 4)
         from ..driver import draw_costs
         pivot_costs = draw_costs(rng)
         if e3:
@@ -616,7 +616,10 @@ class C15(Base):
                 else:
                     r = rng.randint(0, s)
                     cfg["p"]["r"], cfg["p"]["d"] = r, s - r
-                    if rng.random() < 0.3:
+                    if rng.random() < 0.5:
+                        # exactly the pivot tuple: differs from its twins
+                        # in the trajectory only
+                        cfg["N"] = pivot_n
                         cfg["p"]["r"], cfg["p"]["d"] = pivot_r, pivot_d
             elif "uf" in cfg["p"]:
                 u = rng.random()
